@@ -50,6 +50,15 @@ def _eof_guard_direct(fn, start_blocks):
             problems.append((b, bad))
         else:
             K.add(b)
+    # Option level: `None` is end of input too; the Some edge must go straight to a K block
+    for b in sorted(fn.live_blocks()):
+        info = fn.switch_info(b)
+        if info and info.get("kind") == "enum" and info["adt"].endswith("option::Option"):
+            path = norm_path(fn.apath(info["place"]))
+            if re.search(r"^call:.*" + PEEK_CALLS[:-1] + r"@\d+$", path):
+                some_t = info["edges"].get("Some", info["otherwise"])
+                if some_t in K:
+                    K.add(b)
     # `at(Eof)` idiom
     for c in fn.live_calls():
         if re.search(r"Parser::<'input>::at$", c.name):
@@ -78,7 +87,7 @@ def _drain_closure_ok(prog, cal):
         info = cal.switch_info(b)
         if info and info.get("kind") == "enum" and info["adt"].endswith("token_kind::TokenKind"):
             p = norm_path(cal.apath(info["place"]))
-            if p != "arg2":
+            if p != "arg%d" % cal.argc:  # the `kind` parameter (arg1 is the closure environment)
                 continue
             eof_t = info["edges"].get("Eof")
             if eof_t is None:
